@@ -269,6 +269,11 @@ class PatternConstraintComponent(StringBasedConstraintBase):
                     "PatternConstraintComponent sh:pattern must be a RDF Literal node.",
                     "https://www.w3.org/TR/shacl/#PatternConstraintComponent",
                 )
+            if not isinstance(pattern_found.value, str):
+                raise ConstraintLoadError(
+                    "PatternConstraintComponent sh:pattern must be a string literal.",
+                    "https://www.w3.org/TR/shacl/#PatternConstraintComponent",
+                )
             patterns_found.append(pattern_found)
         if len(patterns_found) < 1:
             raise ConstraintLoadError(
@@ -284,6 +289,11 @@ class PatternConstraintComponent(StringBasedConstraintBase):
             self.flags = None
 
         re_flags = 0
+        if self.flags is not None and not isinstance(self.flags, rdflib.Literal):
+            raise ConstraintLoadError(
+                "PatternConstraintComponent sh:flags must be a RDF Literal node.",
+                "https://www.w3.org/TR/shacl/#PatternConstraintComponent",
+            )
         if self.flags:
             flags = str(self.flags.value).lower()
             case_insensitive = 'i' in flags
@@ -298,7 +308,13 @@ class PatternConstraintComponent(StringBasedConstraintBase):
                 re_pattern = str(p.value)
             else:
                 re_pattern = str(p)
-            re_matcher = re.compile(re_pattern, re_flags)
+            try:
+                re_matcher = re.compile(re_pattern, re_flags)
+            except re.error as e:
+                raise ConstraintLoadError(
+                    "PatternConstraintComponent sh:pattern is not a valid regular expression: {}".format(e),
+                    "https://www.w3.org/TR/shacl/#PatternConstraintComponent",
+                )
             self.compiled_cache[p] = re_matcher
 
     @classmethod
